@@ -315,10 +315,12 @@ class Policy:
         on_end: AttemptHook | None,
     ) -> RetryOutcome[Any]:
         """Execute single attempt without retry."""
+        invoked = 0
         try:
             if on_start is not None:
                 on_start(make_attempt_context(1, ctx.operation, ctx.elapsed()))
 
+            invoked = 1
             result = func()
 
         except AbortRetryError as exc:
@@ -334,7 +336,8 @@ class Policy:
                         stop_reason=StopReason.ABORTED,
                     )
                 )
-            return build_aborted_outcome(ctx, attempts=1)
+            # An abort raised by the start hook ends the run before the operation was invoked.
+            return build_aborted_outcome(ctx, attempts=invoked)
 
         except (asyncio.CancelledError, KeyboardInterrupt, SystemExit):
             record_cancel(ctx)
